@@ -183,4 +183,15 @@ CLAIMS = {
           "and goroutine creation (exempted accesses, unguarded-by-design fields) are argued in prose. The race detector only reports races "
           "an execution actually exhibits.",
  },
+ "C06": {
+  "technique": "Lean 4 proof (panic-freedom of the mirrored decoder and directory window on every input; every request refused or table-preserving; connection privacy) + hostile-session correspondence in-process with a crash journal",
+  "text": "decode_never_traps, stat_decode_never_traps, dir_read_never_traps (the mirrors trap exactly where the Go code indexes; proved never "
+          "to, for all byte strings / offsets / counts), oversize_frame_not_executed, bad_fid_refused, huge_count_refused, "
+          "any_request_keeps_table_wellformed, other_connections_untouched. Correspondence: structured adversarial sequences, byte "
+          "mutations of valid sessions and random bytes against a scripted implementation and Ufs; process death is attributed to the "
+          "journaled session; bystander and fresh connections probed after every session.",
+  "note": TB + "A theorem excludes a crash only where the model represents the trap (decoder, directory window, request rules). Crashes in "
+          "unmodelled lines are found by search, not excluded: this check found and the repository now fixes a pipelined request on a fid "
+          "still being created (F-26) and concurrent directory reads on one fid (F-27).",
+ },
 }
